@@ -1473,8 +1473,14 @@ func c15r6(c *Ctx) {
 						kinds := map[string]bool{}
 						for _, v := range s.values(arg) {
 							if wk, _ := asCall(v); wk != nil && calleeName(wk.Common()) == "WithKind" {
-								if k, ok := constString(callArgs(wk.Common())[0]); ok {
-									kinds[k] = true
+								// the kind is a constant per scope, or one variable that holds either
+								// (`kind := "A"; if cluster { kind = "B" }; gv.WithKind(kind)`)
+								for _, kv := range s.values(callArgs(wk.Common())[0]) {
+									if k, ok := constString(kv); ok {
+										kinds[k] = true
+									} else {
+										kinds["?"+p.describe(kv)] = true
+									}
 								}
 							}
 						}
